@@ -72,13 +72,17 @@ func (h *H) spec(phase string, i int, detail any) replaySpec {
 
 func (h *H) ask(line string) string {
 	if h.drv == nil {
+		h.res.Fatalf("model driver not available for request %q", clip(line)[:min(len(line), 40)])
 		return "no-driver"
 	}
 	out, err := h.drv.Ask(line)
 	if err != nil {
-		h.res.Note("driver: %v", err)
+		h.res.Fatalf("model driver died: %v", err)
 		h.drv = nil
 		return "driver-error"
+	}
+	if out == "bad-op" {
+		h.res.Fatalf("model driver answered bad-op to %q", clip(line)[:min(len(line), 60)])
 	}
 	return out
 }
@@ -106,7 +110,7 @@ func main() {
 			err = json.Unmarshal(b, &rf)
 		}
 		if err != nil || rf.Replay.Phase == "" {
-			res.Note("cannot read replay %s: %v", f.Replay, err)
+			res.Fatalf("cannot read replay %s: %v", f.Replay, err)
 			lib.Finish(f, res)
 		}
 		h.only = &rf.Replay
@@ -163,14 +167,14 @@ func main() {
 			hh := *h
 			drv, err := lib.StartDriver(f.Driver)
 			if err != nil {
-				res.Note("driver: %v", err)
+				res.Fatalf("driver: %v", err)
 			} else {
 				hh.drv = drv
 				defer drv.Close()
 			}
 			t0 := time.Now()
 			if err, panicked, stack := lib.Try(func() error { tk.run(&hh); return nil }); panicked {
-				res.Note("harness task %s panicked: %v\n%s", tk.name, err, stack)
+				res.Fatalf("harness task %s panicked: %v\n%s", tk.name, err, stack)
 				res.Mismatch(lib.Mismatch{Sig: "harness-panic/" + tk.name, Model: "", Impl: err.Error()})
 			}
 			mu.Lock()
@@ -180,6 +184,29 @@ func main() {
 	}
 	wg.Wait()
 	res.SetExtra("phase_seconds", timings)
+	if h.only == nil {
+		// ties must not silently disappear: minimum hit counts of the comparisons that have a fixed size
+		need := map[string]int{"projection-table:compared": 9, "decoder-utf8-mode:" + h.decoderMode(): 1}
+		for _, a := range []string{"GetBlockHeaderHashByNumber", "GetGlobalStateRootByBlockNumber", "GetBlockTransactionCountByNumber",
+			"GetBlockHeaderTimestampByNumber", "GetBlockHeaderEventsBloomByNumber", "GetTransactionExecutionStatusByBlockAndIndex",
+			"GetTransactionEventsByBlockNumber", "GetTransactionHashesByBlockNumber"} {
+			need["proj-accessor:"+a] = 1
+		}
+		for _, gr := range golden {
+			need["golden:"+gr.name] = 1
+		}
+		for _, st := range typedTables() {
+			need["typed:"+st.name] = 1
+		}
+		for k, n := range need {
+			if res.Distribution[k] < n {
+				res.Fatalf("tie lost: %q was hit %d times, expected at least %d", k, res.Distribution[k], n)
+			}
+		}
+		if len(golden) != 12 {
+			res.Fatalf("golden corpus has %d records, expected 12", len(golden))
+		}
+	}
 
 	if h.tmpDir != "" {
 		os.RemoveAll(h.tmpDir)
